@@ -10,7 +10,7 @@ from __future__ import annotations
 
 import ast
 
-from .model import Class, Module, Program, u
+from .model import real_body, Class, Module, Program, u
 
 FALSY_ABLE = {"int", "float", "str", "bytes", "list", "dict", "set", "tuple", "frozenset", "TypeRow", "ExtensionSet", "PortOffset", "NodeIdx", "bool"}
 
@@ -466,10 +466,38 @@ def unbound_after_branches(ctx, rule: str, modules: list[str], only=None) -> int
             return True
         if isinstance(s_, ast.Expr) and isinstance(s_.value, ast.Call) and u(s_.value.func).split(".")[-1] == "assert_never":
             return True
+        if isinstance(s_, ast.Expr) and isinstance(s_.value, ast.Call) and never_returns(u(s_.value.func).split(".")[-1]):
+            return True
         if isinstance(s_, ast.If):
             return bool(s_.orelse) and terminates(s_.body) and terminates(s_.orelse)
         if isinstance(s_, ast.Match):
             return any(_irrefutable(c.pattern) and c.guard is None for c in s_.cases) and all(terminates(c.body) for c in s_.cases)
+        return False
+
+    _nr: dict = {}
+
+    def never_returns(name, depth=0):
+        """a private helper of the program every definition of which ends in raise / assert_never on all its ways (annotated NoReturn or not)"""
+        if not name.startswith("_") or name.startswith("__") or depth > 3:
+            return False
+        if name in _nr:
+            return _nr[name]
+        _nr[name] = False
+        defs = [f_ for m_ in prog.modules.values() for f_ in ast.walk(m_.tree) if isinstance(f_, ast.FunctionDef) and f_.name == name]
+        ok = bool(defs) and all(terminates_no_return(real_body(f_)) for f_ in defs)
+        _nr[name] = ok
+        return ok
+
+    def terminates_no_return(block):
+        if not block:
+            return False
+        s_ = block[-1]
+        if isinstance(s_, ast.Raise):
+            return True
+        if isinstance(s_, ast.Expr) and isinstance(s_.value, ast.Call) and (u(s_.value.func).split(".")[-1] == "assert_never" or never_returns(u(s_.value.func).split(".")[-1], 1)):
+            return not any(isinstance(n, ast.Return) for x in block for n in ast.walk(x))
+        if isinstance(s_, ast.If):
+            return bool(s_.orelse) and terminates_no_return(s_.body) and terminates_no_return(s_.orelse) and not any(isinstance(n, ast.Return) for x in block[:-1] for n in ast.walk(x))
         return False
 
     def _irrefutable(p):
